@@ -132,5 +132,26 @@ def command_events(ctx, thorough, only=None):
     for e in evs.values():
         if e["runs"][0]["nbytes"] == 0:
             raise vlib.Inconclusive("reference run of %s %s produced no output" % (e["cmd"], e["opts"]))
+    # repeated executions of one tiny command on many CPUs: start-up races (first use of shared caches by
+    # several workers at once) show as a crash or a different output once in thousands of runs
+    if not only or only == "obigrep":
+        tiny = os.path.join(d, "tiny.fa")
+        with open(tiny, "w") as f:
+            for i in range(12):
+                f.write('>r%d {"count":%d,"k":"v%d","m":{"a":1,"b":2}}\nacgtacgtacgtacgtagctagctagct\n' % (i, i + 1, i))
+        nrep = 12000 if thorough else 2500
+        sj = [{"argv": [b("obigrep"), "--max-cpu", "16", "--batch-size", "1", "-l", "5", tiny], "cwd": d} for _ in range(nrep)]
+        sres = ctx.run_many(sj, timeout=120, workers=32)
+        e = {"cmd": "obigrep", "opts": "-l 5 tiny.fa (x%d repetitions)" % nrep, "runs": []}
+        seen = set()
+        for i, r in enumerate(sres):
+            sha = hashlib.sha1(r["out"]).hexdigest()
+            key = (r["rc"], sha)
+            if i == 0 or key not in seen:      # keep the event small: one entry per distinct outcome
+                e["runs"].append({"cfg": "cpu=16 bs=1 rep=%d" % i, "rc": r["rc"], "hung": 1 if r["timeout"] else 0, "sha": sha,
+                                  "nbytes": len(r["out"]), "stderr": r["err"][-300:] if r["rc"] else ""})
+            seen.add(key)
+        evs[("obigrep", "stress")] = e
+        jobs += sj
     ctx.extra["command_runs"] = len(jobs)
     return list(evs.values())
